@@ -429,6 +429,10 @@ class NNFizer(DagWalker):
                         mgr.Not(s.arg(1))]
             elif s.is_quantifier():
                 return [mgr.Not(s.arg(0))]
+            elif s.is_ite():
+                # Negation of a boolean ITE: push the negation to the branches
+                i, t, e = s.args()
+                return [i, mgr.Not(i), mgr.Not(t), mgr.Not(e)]
             else:
                 return [s]
 
@@ -451,11 +455,8 @@ class NNFizer(DagWalker):
             return [i, mgr.Not(i), t, e]
 
         else:
-            assert formula.is_str_op() or \
-                formula.is_symbol() or \
-                formula.is_function_application() or \
-                formula.is_bool_constant() or \
-                formula.is_theory_relation(), str(formula)
+            # Any other boolean term (symbol, function application,
+            # theory relation, array select, ...) is an atom
             return []
 
     def walk_not(self, formula: FNode, args: List[FNode], **kwargs) -> FNode:
@@ -478,6 +479,9 @@ class NNFizer(DagWalker):
             return self.mgr.Exists(s.quantifier_vars(), args[0])
         elif s.is_exists():
             return self.mgr.ForAll(s.quantifier_vars(), args[0])
+        elif s.is_ite():
+            i, ni, nt, ne = args
+            return self.mgr.And(self.mgr.Or(ni, nt), self.mgr.Or(i, ne))
         else:
             return self.mgr.Not(args[0])
 
@@ -527,7 +531,8 @@ class NNFizer(DagWalker):
     @handles(op.THEORY_OPERATORS)
     def walk_theory_op(self, formula, **kwargs):
         #pylint: disable=unused-argument
-        return None
+        # Only boolean-valued terms (e.g., array select) are visited
+        return formula
 
 # EOC NNFizer
 
